@@ -392,7 +392,10 @@ def oracle(ctx, scale):
         # extraction at order 2m through the setup: the global shapes over all sensors (references, then roving by setup)
         order = np.argsort(S.fn)
         try:
-            ms.mpe("a", sel_freq=[float(S.fn[i]) for i in order], order=m2, rtol=1e-3)
+            if rng.random() < 0.5:
+                ms.mpe("a", sel_freq=[float(S.fn[i]) for i in order], order=m2, rtol=1e-3)
+            else:  # the default matching tolerance
+                ms.mpe("a", sel_freq=[float(S.fn[i]) for i in order], order=m2)
         except Exception as e:  # noqa: BLE001
             ctx.violation(f"ms:mpe-raises-{type(e).__name__}", f"{cls.__name__}.mpe at order 2m raises {type(e).__name__}: {str(e)[:100]}", inp)
             return
